@@ -1294,6 +1294,30 @@ def judge_case(ctx, case, R, M):
     fid = case["finding"]
     if fid in ("F-C08-9", "F-C08-17", "F-C08-18"):
         Mv = None  # pysbml refuses booleans as numbers / reuses a component's name; the model does not predict the third party
+    if fid == "F-C08-5":
+        # names that need escaping come back renamed (known, third-party mapping) — but every reference has to resolve:
+        # the NUMBERS under the renamed names are judged on their own, without the licence of the finding
+        def nums(v):
+            return v if v is None or "err" in v else {"init": v["init"], "at": v["at"]}
+
+        def names(v):
+            return v if v is None or "err" in v else {"names": v["names"]}
+
+        import keyword
+        import re
+
+        def plain(n):
+            return bool(re.fullmatch(r"[A-Za-z][A-Za-z0-9_]*", n)) and "__" not in n and not keyword.iskeyword(n)
+
+        odd_species = {sp for r in desc["rxns"] for sp, c in r["stoich"] if c[0] == "fn" and not plain(sp)}
+        # (third party, F-C17-5: the id of a species reference is not renamed by the importer — a computed coefficient on
+        #  a species whose name needs escaping)
+        ctx.judge(dict(small, finding=None), nums(Rv), nums(S), nums(Mv) if not odd_species else None,
+                  finding="F-C08-20" if odd_species else None,
+                  what="export -> import of names that need escaping: a reference does not resolve / a number changes")
+        if "err" not in Rv:
+            ctx.judge(small, names(Rv), names(S), names(Mv), finding=fid, what="export -> import renames a component")
+        return
     ctx.judge(small, Rv, S, Mv, finding=fid, what="export -> import changes names, initial values, derived values, fluxes or derivatives")
 
 
